@@ -4,6 +4,7 @@ from props import shared
 
 PID = "C08"
 LEAN_MODULES = ['BemppVerif.Props.C08', 'BemppVerif.Props.C02', 'BemppVerif.Gen.AsmMatch', 'BemppVerif.Lemmas.KernelPDE', 'BemppVerif.Lemmas.KernelFarField']
+LEAN_MODULES += shared.CTOR_MODULES
 N = "BemppVerif.C08."
 THEOREMS = []
 PARTIAL = {N + "farfield_translation": "the far-field kernels of the code use only Re k (known finding farfield-ignores-imag-k): "
@@ -14,6 +15,7 @@ TRUSTED = [
     "theorems are about terms recorded while running the undecorated source of the real functions",
     "hand model Model/Asm.lean tied to the source by the generated AsmMatch theorems (symbolic, one generic configuration)",
     "classical analysis that is used but not formalised is named in PARTIAL",
+    shared.CTOR_TRUSTED,
 ]
 ASSUMPTIONS = []
 RULE = 'correspondence: compiled kernels/assemblers vs their traces at random numeric configurations; oracle: props/c08_oracle.py'
@@ -28,6 +30,9 @@ def generate(ctx):
                    + ["BemppVerif.C02.potential_refines_spec", "BemppVerif.C02.potential_of_space"]
                    + shared.asm_theorems("potential_matches")
                    + sum(shared.KERNEL_FACTS.values(), []) + sum(shared.CALCULUS.values(), []))
+    info.update(shared.gen_ctors()[0])
+    THEOREMS.extend(shared.ctor_theorems('laplace_potential', 'helmholtz_potential', 'modified_potential', 'maxwell_potential', 'helmholtz_far_field', 'maxwell_far_field')
+                    + [t for t in shared.CTOR_SPEC if t.split('.')[-1] in ('no_dispatch_far_field_maxwell', 'maxwell_kernel_and_dimension', 'helmholtz_imag_is_modified')])
     return info
 
 
